@@ -366,7 +366,45 @@ were read for the prefix check, and the prefix check is there. -/
 theorem extracted_append_path_locks_the_row_it_read :
     ∀ p ∈ condPaths, p.kind = "append" →
       p.lockVersionGen.isSome = true ∧ p.lockVersionGen = p.partsReadGen ∧ p.lockEntityGen = p.lockVersionGen ∧
-      p.prefixChecked = true := by
+      p.prefixChecked = true ∧ p.prefixCheckUnconditional = true := by
+  decide
+
+/-- **inm_commits_only_on_absent_key.** The create-if-absent writer whose LAST guard tests the
+freshly read null version, against an arbitrary environment of other committing writers: for every
+interleaving it commits only when there is no row — it never replaces an acknowledged write. -/
+theorem inm_commits_only_on_absent_key (reads : Nat) (new : List Nat) (d : Db) (evs : List Ev) :
+    ∀ b, (runInm reads true new (d, {}) evs).2.st = .committed b → b = none :=
+  (invI_run reads new evs (d, {}) ⟨rfl, by intro b hb; simp at hb⟩).done
+
+/-- Negation witness for the other shape — the last guard re-uses the boolean computed from an EARLIER
+existence read: both reads see no object, another create-if-absent writer commits [5], the null
+version lookup finds it, the stale flag still says "absent", and the writer replaces the acknowledged
+write: two If-None-Match winners. -/
+theorem stale_existence_flag_gives_two_winners :
+    (runInm 2 false [9] (⟨none, 0⟩, {}) [.a, .a, .env (.insert [5]), .a, .a]).2.st = .committed (some ⟨0, 1, [5]⟩) ∧
+    (runInm 2 true [9] (⟨none, 0⟩, {}) [.a, .a, .env (.insert [5]), .a, .a]).2.st = .failed := by
+  decide
+
+/-- **extracted_inm_paths_test_the_fresh_read** (T1). In the If-None-Match paths of PutObject and
+CompleteMultipartUpload every read of the latest row is tested for absence, and the LAST precondition
+guard tests the is_latest flag of the null version read just before it (a generation ≥ 101) and no
+boolean computed from an earlier read. -/
+theorem extracted_inm_paths_test_the_fresh_read :
+    ∀ p ∈ condPaths, p.kind = "inm" →
+      (∀ g ∈ List.range p.reads, p.existChecked.contains (g + 1) = true) ∧
+      ∃ last, p.guards.getLast? = some last ∧
+        last.any (fun f => f.1 == "latest" && decide (101 ≤ f.2)) = true ∧
+        last.all (fun f => f.1 != "snapshot") = true := by
+  decide
+
+/-- **outbox_writes_through_iff_any_condition** (T1). The storage outbox runs a PutObject, a
+DeleteObject and a bulk DeleteObjects synchronously as soon as the request — for the bulk form: ANY of
+its entries — carries a condition; nothing lowers that decision again; the synchronous branch drains
+the pending entries of the key (bulk: the bucket) and hands the original options/entries to the inner
+storage. -/
+theorem outbox_writes_through_iff_any_condition :
+    ∀ m ∈ ["PutObject", "DeleteObject", "DeleteObjects"], ∃ d ∈ Gen.TxFacts.outboxDecisions,
+      d.method = m ∧ d.syncIfConditional = true ∧ d.monotone = true ∧ d.drains = true ∧ d.writesThrough = true := by
   decide
 
 /-- Hence, for the If-Match paths of the code as it is: for every interleaving with other
